@@ -65,15 +65,56 @@ func cat(parts ...[]step) []step {
 
 /* ---------------------------------------------------------------- emitting */
 
+type preResult struct {
+	lines, direct []string
+	quiescent     bool
+}
+
 type runner struct {
 	c     *hx.Ctx
 	n     int
 	only  map[string]bool
+	fams  []string // replay file: `family=<name prefix>` selects whole families
 	names map[string]int
+	pre   map[*scenario]chan preResult
+}
+
+func (r *runner) selected(sc *scenario) bool {
+	if r.only == nil {
+		return true
+	}
+	if r.only[sc.name] {
+		return true
+	}
+	for _, f := range r.fams {
+		if strings.HasPrefix(sc.name, f) {
+			return true
+		}
+	}
+	return false
+}
+
+// prerun starts the scenarios that wait on real time (keep-alive periods, write delays) concurrently; run() collects them
+func (r *runner) prerun(all []*scenario) {
+	r.pre = map[*scenario]chan preResult{}
+	sem := make(chan struct{}, 24)
+	for _, sc := range all {
+		if !sc.par || !r.selected(sc) {
+			continue
+		}
+		ch := make(chan preResult, 1)
+		r.pre[sc] = ch
+		go func(sc *scenario) {
+			sem <- struct{}{}
+			l, d, q := runScenario(sc)
+			<-sem
+			ch <- preResult{l, d, q}
+		}(sc)
+	}
 }
 
 func (r *runner) run(sc *scenario) {
-	if r.only != nil && !r.only[sc.name] {
+	if !r.selected(sc) {
 		return
 	}
 	// a change that breaks liveness everywhere would cost a watchdog per scenario: after a number of
@@ -84,7 +125,14 @@ func (r *runner) run(sc *scenario) {
 	}
 	r.n++
 	t0 := time.Now()
-	lines, direct, quiescent := runScenario(sc)
+	var lines, direct []string
+	var quiescent bool
+	if pr, ok := r.pre[sc]; ok {
+		res := <-pr
+		lines, direct, quiescent = res.lines, res.direct, res.quiescent
+	} else {
+		lines, direct, quiescent = runScenario(sc)
+	}
 	if ms := int(time.Since(t0) / time.Millisecond); ms > 300 {
 		r.c.Stat("slow_scenarios", 1)
 		if os.Getenv("VERIF_SLOW") != "" {
@@ -93,12 +141,19 @@ func (r *runner) run(sc *scenario) {
 	}
 	r.c.Emit("scn %d %s", r.n, sc.text())
 	for _, l := range lines {
+		if sc.noModel {
+			// outside the monitor's language: kept for the replay file, not read by the model runner
+			l = "obs" + l
+		}
 		r.c.Emit(l, r.n)
 	}
 	for _, l := range direct {
 		if strings.Contains(l, " FAIL ") {
 			r.c.Emit("%s scn=%d", l, r.n)
 			r.c.Stat("direct_fail", 1)
+		} else if strings.HasPrefix(l, "direct observe ") {
+			// what the unchanged tree does under a boundary value (a finding): recorded, not failed
+			r.c.Emit("%s scn=%d", l, r.n)
 		} else {
 			r.c.Stat("direct_ok", 1)
 		}
@@ -110,7 +165,9 @@ func (r *runner) run(sc *scenario) {
 	}
 	r.c.Emit("end %d %s", r.n, q)
 	r.c.Stat("scenarios", 1)
-	r.c.Stat("events", len(lines))
+	if !sc.noModel {
+		r.c.Stat("events", len(lines))
+	}
 	fam := strings.SplitN(sc.name, "/", 2)[0]
 	r.c.Stat("family_"+fam, 1)
 	if r.names[fam] == 0 {
@@ -129,6 +186,11 @@ func newRunner(c *hx.Ctx) *runner {
 			if len(f) >= 3 && f[0] == "scn" {
 				r.only[f[2]] = true
 			}
+			for _, w := range f {
+				if strings.HasPrefix(w, "family=") {
+					r.fams = append(r.fams, w[7:])
+				}
+			}
 		}
 	}
 	return r
@@ -136,14 +198,18 @@ func newRunner(c *hx.Ctx) *runner {
 
 func runC09(c *hx.Ctx) {
 	r := newRunner(c)
-	for _, sc := range c09Scenarios(c) {
+	all := c09Scenarios(c)
+	r.prerun(all)
+	for _, sc := range all {
 		r.run(sc)
 	}
 }
 
 func runC10(c *hx.Ctx) {
 	r := newRunner(c)
-	for _, sc := range c10Scenarios(c) {
+	all := c10Scenarios(c)
+	r.prerun(all)
+	for _, sc := range all {
 		r.run(sc)
 	}
 }
